@@ -1,0 +1,123 @@
+//go:build verif
+
+// Add-only exports for the verification harness (/verif, property C17).
+// Not compiled without the `verif` build tag.
+package p2p
+
+import (
+	"crypto/cipher"
+	"io"
+	"io/ioutil"
+
+	"gitlab.com/aquachain/aquachain/crypto/sha3"
+)
+
+// VerifMaxUint24 is the frame size limit of rlpx.go.
+const VerifMaxUint24 = maxUint24
+
+// VerifBaseProtocolMaxMsgSize / VerifBaseProtocolLength: peer.go limits.
+const (
+	VerifBaseProtocolMaxMsgSize = baseProtocolMaxMsgSize
+	VerifBaseProtocolLength     = baseProtocolLength
+)
+
+// VerifAESCall is one recorded macCipher.Encrypt call (16-byte input and output).
+type VerifAESCall struct{ In, Out []byte }
+
+type verifRecBlock struct {
+	inner cipher.Block
+	log   *[]VerifAESCall
+}
+
+func (b verifRecBlock) BlockSize() int { return b.inner.BlockSize() }
+func (b verifRecBlock) Encrypt(dst, src []byte) {
+	in := append([]byte(nil), src[:b.inner.BlockSize()]...)
+	b.inner.Encrypt(dst, src)
+	*b.log = append(*b.log, VerifAESCall{In: in, Out: append([]byte(nil), dst[:b.inner.BlockSize()]...)})
+}
+func (b verifRecBlock) Decrypt(dst, src []byte) { b.inner.Decrypt(dst, src) }
+
+// VerifFrameRW is an rlpxFrameRW built by the real constructor newRLPXFrameRW
+// from explicit secrets.  The MAC hashes are Keccak-256 instances that have
+// absorbed egressSeed / ingressSeed (what encHandshake.secrets does with
+// xor(MAC,nonce) || auth packet).
+type VerifFrameRW struct {
+	rw       *rlpxFrameRW
+	conn     *verifEOFConn
+	AESCalls []VerifAESCall // every macCipher.Encrypt call made by this side
+}
+
+// verifEOFConn remembers whether the underlying connection ran dry.
+type verifEOFConn struct {
+	io.ReadWriter
+	sawEOF bool
+}
+
+func (c *verifEOFConn) Read(p []byte) (int, error) {
+	n, err := c.ReadWriter.Read(p)
+	if err == io.EOF || err == io.ErrUnexpectedEOF {
+		c.sawEOF = true
+	}
+	return n, err
+}
+
+func VerifNewFrameRW(conn io.ReadWriter, aesKey, macKey, egressSeed, ingressSeed []byte, snappy bool) *VerifFrameRW {
+	eg := sha3.NewKeccak256()
+	eg.Write(egressSeed)
+	in := sha3.NewKeccak256()
+	in.Write(ingressSeed)
+	v := &VerifFrameRW{conn: &verifEOFConn{ReadWriter: conn}}
+	v.rw = newRLPXFrameRW(v.conn, secrets{AES: aesKey, MAC: macKey, EgressMAC: eg, IngressMAC: in})
+	v.rw.snappy = snappy
+	v.rw.macCipher = verifRecBlock{inner: v.rw.macCipher, log: &v.AESCalls}
+	return v
+}
+
+// WriteMsg sends (code, payload) with Size = len(payload), as p2p.Send does.
+func (v *VerifFrameRW) WriteMsg(code uint64, payload []byte) error {
+	return v.rw.WriteMsg(Msg{Code: code, Size: uint32(len(payload)), Payload: verifReader(payload)})
+}
+
+// WriteMsgSized lets the caller lie about Size (local misuse, not network input).
+func (v *VerifFrameRW) WriteMsgSized(code uint64, size uint32, payload []byte) error {
+	return v.rw.WriteMsg(Msg{Code: code, Size: size, Payload: verifReader(payload)})
+}
+
+// ReadMsg reads one message; class is a small enum of the error:
+// "" (ok) | short (conn ran dry) | hmac | fmac | toolarge | err.
+func (v *VerifFrameRW) ReadMsg() (code uint64, size uint32, payload []byte, class string, err error) {
+	msg, err := v.rw.ReadMsg()
+	if err != nil {
+		switch {
+		case v.conn.sawEOF && (err == io.EOF || err == io.ErrUnexpectedEOF):
+			class = "short" // the connection ended inside a frame
+		case err == errPlainMessageTooLarge:
+			class = "toolarge"
+		case err.Error() == "bad header MAC":
+			class = "hmac"
+		case err.Error() == "bad frame MAC":
+			class = "fmac"
+		default:
+			class = "err"
+		}
+		return msg.Code, msg.Size, nil, class, err
+	}
+	payload, _ = ioutil.ReadAll(msg.Payload)
+	return msg.Code, msg.Size, payload, "", nil
+}
+
+type verifBytesReader struct {
+	b []byte
+	i int
+}
+
+func (r *verifBytesReader) Read(p []byte) (int, error) {
+	if r.i >= len(r.b) {
+		return 0, io.EOF
+	}
+	n := copy(p, r.b[r.i:])
+	r.i += n
+	return n, nil
+}
+
+func verifReader(b []byte) io.Reader { return &verifBytesReader{b: b} }
